@@ -95,7 +95,7 @@ Qed.
 Lemma lazy_data_eq : forall body r,
   validate body = Ok tt -> decode_body body = Ok r ->
   exists cig dt,
-    lzp_data body = Some (dt, false) /\
+    lzp_data_sw false body = Some (dt, false) /\
     chunk_ops (lz_cigar_raw body) = Ok cig /\
     resolve (r_seq r) cig dt = Ok (r_cigar r, r_data r) /\
     (forall t, data_get (dt, false) t = option_map Ok (find_tag t dt)) /\
@@ -108,7 +108,7 @@ Proof.
   exists cig, dt.
   destruct (lz_fields_eq _ _ _ _ (length (lz_data_raw body)) G3 (le_n _)) as (more & Hm & Hlf).
   cbn [app] in Hm. subst more.
-  split; [unfold lzp_data; rewrite Hdr; cbn [option_map]; rewrite Hlf; reflexivity|].
+  split; [unfold lzp_data_sw; rewrite Hdr; cbn [option_map andb]; rewrite Hlf; reflexivity|].
   split; [exact G2|]. split; [exact G4|]. split.
   - intros t. unfold data_get. cbn [fst snd]. destruct (find_tag t dt); reflexivity.
   - intros [Hn|Hp].
@@ -176,7 +176,7 @@ Lemma lazy_detail_no_panic : forall body, validate body = Ok tt ->
 Proof.
   intros body Hv. pose proof (validate_ok body Hv) as Hb.
   destruct (lazy_slices_ok body Hv) as (_ & _ & _ & _ & _ & Hdr & _).
-  split; [unfold lzp_data; rewrite Hdr; cbn [option_map]; eauto|].
+  split; [unfold lzp_data, lzp_data_sw; rewrite Hdr; cbn [option_map]; eauto|].
   unfold lzp_seq_len, lzp_seq_get, lzp_slice.
   destruct (32 + lz_lname body + 4 * lz_nops body + (lz_lseq body + 1) / 2 <=? lenN body) eqn:E; [|lia].
   split; [reflexivity|]. intros i.
